@@ -22,7 +22,8 @@ import lib
 from lib import zlit, vlist
 
 LEVEL = "proof"
-UNITS = ["GenSignatures", "GenCtxGeometry", "GenContextShape"]
+# GenBoardTables / GenBoard are C19's units (same source): Proofs/ContextBoard.v proves C18's kernel equal to C19's
+UNITS = ["GenSignatures", "GenCtxGeometry", "GenContextShape", "GenBoardTables", "GenBoard"]
 
 SCP = dict(sver=0, read=2, write=3, fill=5, link_read=17, link_write=18, nnp=20, signal=22, ffd=23, led=25,
            iptag=26, alloc_free=28, router=29, info=31, bmp_info=48, power=57)
@@ -1143,7 +1144,7 @@ def run(chk, args):
         "the oracle start from the state that must result (connections discovered AND kept)"]
     chk.regenerate(UNITS[:2])
     evaluable = chk.model_ok
-    # the shape unit is imported by Proofs/ContextDeepen.v only: when it is Unsupported the proofs are broken
+    # the shape unit and C19's units are imported by Proofs/ only: when it is Unsupported the proofs are broken
     # (reported), but Model/Context.v can still be evaluated for the correspondence run
     chk.regenerate(UNITS[2:])
     chk.model_ok = evaluable
